@@ -274,9 +274,13 @@ func (s *Swarm[T]) withSession(ctx context.Context, dst Addr[T], fn func(sess qu
 	}
 	peerAddr, err := s.remoteAddrFromSession(sess)
 	if err != nil {
+		sess.CloseWithError(1, "no peer identity")
 		return err
 	}
 	if !(peerAddr.ID == dst.ID) {
+		// The session must not stay open: nothing here would ever read from it, while the peer
+		// has accepted it and prefers it for everything it sends to this node.
+		sess.CloseWithError(1, "wrong peer")
 		return fmt.Errorf("wrong peer HAVE: %v WANT: %v", peerAddr.ID, dst.ID)
 	}
 	s.putSession(peerAddr, sess, true)
